@@ -48,11 +48,12 @@ CLAIMED.update({
         "DESIGN.md §5 C14",
     ),
     "C15": (
-        "abstract evaluation on the option domain {None, falsy-not-None, truthy} with ARG/CTOR provenance through data flow and control dependence",
+        "abstract evaluation on the option domain {None, falsy-not-None, truthy} with ARG/CTOR provenance through data flow and control dependence; "
+        "substitution equivalence of the stored terms between 'option None, model setting X' and 'option X' (R15.5)",
         "proof",
         "For each option and option class the numbers stored into ratings depend on the argument (never on the model attribute) when the argument is not None "
         "and on the constructor attribute when it is None; the constructor stores the parameter unchanged modulo float(). 30 option cases x selector classes per model.",
-        "Trusted: provenance propagation of osv/ai. The per-call and model-level paths are compared by which source reaches the stores, not by running both.",
+        "Trusted: provenance propagation of osv/ai. R15.5 compares the position-erased normal forms of the values stored by the two abstract runs.",
         "DESIGN.md §5 C15",
     ),
 })
@@ -99,11 +100,13 @@ CLAIMED.update({
         "DESIGN.md §5 C02",
     ),
     "C04": (
-        "order-tag analysis + fold recognition + index-use discipline (value numbering of loop positions) by abstract interpretation",
+        "order-tag analysis + fold recognition + index-use discipline (value numbering of loop positions) by abstract interpretation; "
+        "abstract evaluation of the rank computation on the finite set of weak orderings of 2 and 3 values (R4.5)",
         "other",
         "Structural necessary conditions of equivariance: the update kernel receives the teams as the image of one stable ascending key-only sort by exactly the given values "
         "(input order when none), no reverse/key-less sort, team statistics are additive commutative folds over all members, loop positions never enter arithmetic, ordering "
-        "comparisons or stored numbers outside five frozen exceptions. Narrow claim: numerical equivariance itself is not decided.",
+        "comparisons or stored numbers outside five frozen exceptions; every kernel call receives the rank values when given; the rank numbers are order isomorphic to the values on "
+        "every non-decreasing weak ordering of 2 and 3 values. Narrow claim: numerical equivariance itself is not decided.",
         "Trusted: osv/ai; lemma L-SORT (two stable sorts by the same keys are aligned). Frozen exceptions listed in osv/rules/c04.py with reasons.",
         "DESIGN.md §5 C04",
     ),
@@ -138,10 +141,12 @@ CLAIMED.update({
         "DESIGN.md §5 C09",
     ),
     "C11": (
-        "intra-class sibling agreement of value-numbered terms (predict_rank vs predict_draw) in polynomial normal form",
+        "intra-class sibling agreement of value-numbered terms (predict_rank vs predict_draw) in polynomial normal form; "
+        "abstract evaluation of the ranking code on every weak ordering of 2 and 3 (thorough: 4) probabilities (3-point order domain, R11.4)",
         "other",
         "predict_rank's CDF argument equals one of predict_draw's two arguments and the negation of the other (same margin and scale), predict_draw's divisor is exactly twice predict_rank's, and the result is one "
-        "(int rank, probability) pair per team in input order: the structural content of 'rank probabilities + draw = 1'. The competition-ranking logic is not decided.",
+        "(int rank, probability) pair per team in input order: the structural content of 'rank probabilities + draw = 1'. The ranking clause (larger probability => better rank, equal => equal, "
+        "best = 1, ranks in 1..n) is decided exhaustively for 2 and 3 teams (4 in the thorough tier); ranks are computed from the returned numbers; two-team probabilities lie in [0, 1].",
         "Trusted: osv/ai, osv/poly.py, pair-chunking axiom, _rank_data positional alignment.",
         "DESIGN.md §5 C11",
     ),
@@ -189,7 +194,8 @@ CLAIMED.update({
         "DESIGN.md §5 C06",
     ),
     "C05": (
-        "polynomial normal form of the stored mu (member share) + interval runs under assumed rank relations (3-point order domain)",
+        "polynomial normal form of the stored mu (member share) + interval runs under assumed rank relations (3-point order domain); "
+        "rank computation evaluated on the finite set of weak orderings of 2 and 3 values (R5.3)",
         "other",
         "Partial claim: every member's mu step is (own tau-inflated variance) x (player-independent team-level quantity), so members move together in proportion to own variance; "
         "omega increments are >= 0 against worse-placed and <= 0 against better-placed teams (pairwise models), own-stage >= 0 / other-stage <= 0 (Plackett-Luce). "
